@@ -31,11 +31,17 @@ pub fn encode(input: &[u8], ecl: ECL, mode: Mode, version: Version) -> CompactQR
         Mode::Byte => encode_byte(&mut compact, input, cci_bits),
     };
 
+    #[cfg(fast_qr_verif)]
+    crate::verif::point("enc.payload");
     let data_bits = hardcode::data_bits(version, ecl);
 
     add_terminator(&mut compact, data_bits);
+    #[cfg(fast_qr_verif)]
+    crate::verif::point("enc.term");
     pad_to_8(&mut compact);
     compact.fill();
+    #[cfg(fast_qr_verif)]
+    crate::verif::point("enc.fill");
 
     compact
 }
